@@ -103,7 +103,7 @@ func (g *Gen) someIdx() uint64 {
 func (g *Gen) nodeService(peer string, node ...string) *structs.NodeService {
 	name := g.pick(gSvcNames)
 	id := name + fmt.Sprint(1+g.R.Intn(2))
-	ns := &structs.NodeService{ID: id, Service: name, Port: 1000 + g.R.Intn(3), Tags: []string{[]string{"v1", "v2"}[int(id[len(id)-1])%2]},
+	ns := &structs.NodeService{ID: id, Service: name, Port: 1000 + g.R.Intn(3), Tags: []string{g.pick([]string{"v1", "v1", "v2"})},
 		Meta: map[string]string{"m": g.pick(gVals)}, PeerName: peer}
 	switch g.R.Intn(12) {
 	case 0, 1:
